@@ -5,10 +5,28 @@ Two kinds of checks, both against the REAL functions:
      interpretation (same contract text the verifier discharges), on the property's own small
      scope; this is also the replay harness of solver counter-models;
  (b) an independent string-level oracle for multisubstitute and randomize, and the conformance
-     of the assumed call-site contract of utils._validate_input with the real function.
+     of the assumed call-site contract of utils._validate_input with the real function;
+ (c) the same string-level oracle (own encoder, strict one-hot decoder - no argmax) for ALL five
+     primitives over the input classes (a)/(b) never pass: X of 8 dtypes (int8 float16/32/64 int32/64
+     uint8 bool) x 4 memory layouts (contiguous, slice of a longer tensor, stride-0 expanded batch,
+     permuted), batch 1-5, sequence length 1-150, motif length up to L+1, motif dtype different from
+     X, motif that is a view of X itself, permuted alphabets, default alphabet left out, start
+     omitted / None / numpy integer; requests that must be REJECTED rather than broadcast or encoded
+     loosely: motif batch neither 1 nor len(X) (also when it divides len(X)), other alphabet size,
+     unknown character ('N', 'Z', all-zero tensor column); multisubstitute with tensor / per-example
+     / mixed motifs, int spacing, 1-5 motifs, caller-owned motif tensors compared before/after;
+     randomize with default / list / numpy / float32 / float64 probs, shared or per-example,
+     uniform / skewed / degenerate, seed as int / RandomState / None, start and end over [-3, L+3].
+
+Tolerated on purpose (DESIGN 2.3, not tightened here): insert refusing start in (L-n, L] and
+randomize refusing end == L (an error there is never a wrong result; the exact edit is accepted as
+well); multisubstitute refusing spacing >= L; the empty motif (statement silent: an error, or the
+exact - empty - edit).  Nothing is asserted about output dtype, aliasing of the result with the
+input, or the distribution of randomize's draws: the statement does not speak of them.
 """
 import itertools
 
+import numpy
 import torch
 
 from tangermeme import ersatz
@@ -17,8 +35,12 @@ from tangermeme.utils import one_hot_encode, characters, _validate_input
 from vf.concrete import check_concrete, to_json, from_json, LETTERS
 
 SCOPE = {
-    'quick': 'alphabets 2-4; every sequence of length <= 4 (sampled per length to 12) x motif length <= 3 x start in [-3, L+3] x {str, tensor shared, tensor per-example} motifs; delete: every (start, end) in [-2, L+2]^2; 300 seeded random larger cases',
-    'thorough': 'alphabets 2-6; every sequence of length <= 5 x motif length <= 3 x every start in [-3, L+3]; 5000 seeded random larger cases',
+    'quick': 'contracts: alphabets 2-4; every sequence of length <= 4 (sampled per length to 12) x motif length <= 3 x start in [-3, L+3] x {str, tensor shared, tensor per-example} motifs; delete: every (start, end) in [-2, L+2]^2; 300 seeded random larger cases. '
+             'string oracle: 8 dtypes x 4 memory layouts x 5 primitives grid at boundary positions; multisubstitute exhaustively for L <= 4 x 1-3 motifs (len 1-2, str/tensor/per-example, int or list spacing in [-1, 2], 3 motifs [-1, 1]) x start in [-3, L+3] + None; '
+             'randomize exhaustively for alphabets 2,4 x L <= 4 x (start, end) in [-3, L+3]^2 x seed int/RandomState/None; 1200 + 500 + 400 seeded random variant cases (dtype, layout, batch 1-5, L <= 150, permuted/default alphabet, numpy indices, '
+             'must-reject motifs: wrong batch / alphabet size / unknown character; probs forms) + 250 plain multisubstitute/randomize cases; _validate_input conformance on int8/float32/bool/int64 tensors',
+    'thorough': 'contracts: alphabets 2-6; every sequence of length <= 5 x motif length <= 3 x every start in [-3, L+3]; 5000 seeded random larger cases. '
+                'string oracle: same grid; multisubstitute exhaustively for L <= 5 (spacings [-1, 2]); randomize exhaustively for alphabets 2,3,4,6 x L <= 5; 12000 + 5000 + 4000 seeded random variant cases + 1500 plain ones; _validate_input conformance',
 }
 
 
@@ -51,9 +73,15 @@ def _check(rep, w, qual, fn, args, kwargs, cfg, key, sample=None):
 
 
 def run(rep):
+    torch.set_num_threads(1)
     w = _contracts()
     thorough = rep.tier == 'thorough'
     rng = rep.rng
+    # cheap, direct-oracle sections first (a few seconds in the quick tier)
+    _variants_grid(rep)
+    _small_multisub(rep, thorough)
+    _small_randomize(rep, thorough)
+    _variants_random(rep, rng, thorough)
     alph_sizes = range(2, 7) if thorough else range(2, 5)
     maxL = 5 if thorough else 4
     per_len = None if thorough else 12
@@ -120,76 +148,515 @@ def _str_sub(s, m, p):
     return s[:p] + m + s[p + len(m):]
 
 
+# ---------------------------------------------------------------------------------------------
+# (c) direct string-level oracle: own encoder / strict decoder, no contract machinery
+# ---------------------------------------------------------------------------------------------
+DTYPES = ('int8', 'float32', 'float64', 'int64', 'bool', 'uint8', 'float16', 'int32')
+LAYOUTS = ('contig', 'view', 'expanded', 'noncontig')
+
+
+def enc(rows, alphabet, dtype='int8'):
+    """own encoder (independent of utils.one_hot_encode): equal-length strings -> (B, A, n);
+    a character outside the alphabet gives an all-zero column"""
+    alphabet = list(alphabet)
+    T = torch.zeros(len(rows), len(alphabet), len(rows[0]), dtype=torch.int8)
+    for b, r in enumerate(rows):
+        for p, ch in enumerate(r):
+            if ch in alphabet:
+                T[b, alphabet.index(ch), p] = 1
+    return T.to(getattr(torch, dtype))
+
+
+def strict_dec(T, alphabet):
+    """(B, A, n) -> list of strings, or None when T is not a valid one-hot encoding (every entry
+    0 or 1, every column summing to exactly 1) - unlike characters(), which takes an argmax"""
+    if not isinstance(T, torch.Tensor) or T.dim() != 3 or T.shape[1] != len(alphabet):
+        return None
+    T64 = T.detach().to(torch.float64)
+    if not bool(((T64 == 0) | (T64 == 1)).all()) or not bool((T64.sum(dim=1) == 1).all()):
+        return None
+    if T64.shape[2] == 0:
+        return ['' for _ in range(T64.shape[0])]
+    return [''.join(alphabet[i] for i in row) for row in T64.argmax(dim=1).tolist()]
+
+
+def build_X(seqs, alphabet, dtype='int8', layout='contig'):
+    """-> (X handed to the function, tensor owning X's storage).  layouts: a slice of a longer
+    tensor, a stride-0 batch expansion of one row (any write through it hits every row), a
+    permuted (non-contiguous) tensor"""
+    if layout == 'expanded':
+        base = enc(seqs[:1], alphabet, dtype)
+        return base.expand(len(seqs), -1, -1), base
+    if layout == 'view':
+        base = enc([alphabet[0] + alphabet[1] + s + alphabet[-1] for s in seqs], alphabet, dtype)
+        return base[:, :, 2:2 + len(seqs[0])], base
+    if layout == 'noncontig':
+        base = enc(seqs, alphabet, dtype).permute(0, 2, 1).contiguous()
+        return base.permute(0, 2, 1), base
+    X = enc(seqs, alphabet, dtype)
+    return X, X
+
+
+def _idx(v, kind):
+    if v is None:
+        return None
+    return numpy.int64(v) if kind == 'numpy' else int(v)
+
+
+def motif_info(m, alphabet, seqs):
+    """-> (rows: the motif string(s), one shared or one per example; valid: True / False / None).
+    valid is False when the motif has no one-hot encoding over the alphabet (unknown character,
+    other alphabet size) or its batch is neither 1 nor len(X) - such a request must be rejected,
+    not broadcast; None for the empty motif, on which the statement is silent"""
+    if isinstance(m, str):
+        m = {'form': 'str', 's': m}
+    if m['form'] == 'str':
+        rows = [m['s']]
+    elif m['form'] == 'xview':
+        rows = [s[m['offset']:m['offset'] + m['n']] for s in seqs]
+    else:
+        rows = list(m['rows'])
+    if len(rows[0]) == 0:
+        return rows, None
+    valid = all(ch in alphabet for r in rows for ch in r) and len(rows) in (1, len(seqs))
+    if m['form'] == 'tensor' and m.get('alphabet') is not None and len(m['alphabet']) != len(alphabet):
+        valid = False
+    return rows, valid
+
+
+def motif_arg(m, alphabet, X):
+    if isinstance(m, str):
+        return m
+    if m['form'] == 'str':
+        return m['s']
+    if m['form'] == 'xview':          # the motif is itself a view of the caller's X
+        return X[:, :, m['offset']:m['offset'] + m['n']]
+    return enc(m['rows'], m.get('alphabet') or alphabet, m.get('dtype', 'int8'))
+
+
+def _frame(out, name, base, base0, margs, margs0):
+    if not torch.equal(base, base0):
+        out.append('%s modified its input X (or the tensor X is a view of)' % name)
+    for a, a0 in zip(margs, margs0):
+        if isinstance(a, torch.Tensor) and not torch.equal(a, a0):
+            out.append('%s modified a caller-owned motif tensor' % name)
+
+
+def check_edit(case):
+    """substitute / insert / delete against string slicing"""
+    out = []
+    fn, alphabet, seqs = case['fn'], list(case['alphabet']), case['seqs']
+    B, L = len(seqs), len(seqs[0])
+    X, base = build_X(seqs, alphabet, case.get('dtype', 'int8'), case.get('layout', 'contig'))
+    base0 = base.clone()
+    ik = case.get('index_kind', 'int')
+    margs = []
+    if fn == 'delete':
+        st, en = case['start'], case['end']
+        args, kw = [X, _idx(st, ik), _idx(en, ik)], {}
+        must_raise = not (0 <= st < en <= L)
+        must_return = not must_raise
+        exp = [s[:st] + s[en:] for s in seqs]
+    else:
+        m = case['motif']
+        rows, valid = motif_info(m, alphabet, seqs)
+        n = len(rows[0])
+        marg = motif_arg(m, alphabet, X)
+        margs = [marg]
+        start = case['start']
+        args, kw = [X, marg], {}
+        if case.get('pass_alphabet', True):
+            kw['alphabet'] = list(alphabet)
+        if not (start is None and case.get('omit_start')):
+            kw['start'] = _idx(start, ik)
+        if fn == 'substitute':
+            p = start if start is not None else L // 2 - n // 2
+            inside = 0 <= p and p + n <= L
+            accept = inside
+        else:
+            p = start if start is not None else L // 2
+            inside = 0 <= p <= L
+            # the pinned guard refuses start in (L-n, L]: an error or the exact edit are both fine there
+            accept = inside and (start is None or p <= L - n)
+        must_raise = (not inside) or valid is False
+        must_return = accept and valid is True
+        exp = None
+        if not must_raise:
+            exp = []
+            for b, s in enumerate(seqs):
+                mb = rows[b] if len(rows) > 1 else rows[0]
+                exp.append(s[:p] + mb + (s[p + n:] if fn == 'substitute' else s[p:]))
+    margs0 = [a.clone() if isinstance(a, torch.Tensor) else a for a in margs]
+    try:
+        Y = getattr(ersatz, fn)(*args, **kw)
+    except Exception as e:
+        if must_return:
+            out.append('%s raised %s (%s) on a valid request' % (fn, type(e).__name__, str(e)[:60]))
+    else:
+        if must_raise:
+            out.append('%s returned although the position/span is not inside the sequence or the motif is not a one-hot motif for this batch' % fn)
+        else:
+            got = strict_dec(Y, alphabet)
+            if got is None or Y.shape[0] != B:
+                out.append('%s output is not a valid one-hot encoding of shape (batch, alphabet, *)' % fn)
+            elif got != exp:
+                out.append('%s: got %s expected %s' % (fn, got[:3], exp[:3]))
+    _frame(out, fn, base, base0, margs, margs0)
+    return out
+
+
 def check_multisub(case):
     out = []
-    alphabet, seqs, motifs, spacing, start = case['alphabet'], case['seqs'], case['motifs'], case['spacing'], case['start']
-    L, nm = len(seqs[0]), len(motifs)
-    X = torch.cat([ohe(s, alphabet) for s in seqs])
-    X0 = X.clone()
-    total = sum(len(m) for m in motifs) + sum(spacing)
+    alphabet, seqs, motifs, spacing, start = list(case['alphabet']), case['seqs'], case['motifs'], case['spacing'], case['start']
+    B, L, nm = len(seqs), len(seqs[0]), len(motifs)
+    X, base = build_X(seqs, alphabet, case.get('dtype', 'int8'), case.get('layout', 'contig'))
+    base0 = base.clone()
+    sp = [spacing] * (nm - 1) if isinstance(spacing, int) else list(spacing)
+    rowss, margs, valid = [], [], True
+    for m in motifs:
+        rows, v = motif_info(m, alphabet, seqs)
+        valid = valid and v is True
+        rowss.append(rows)
+        margs.append(motif_arg(m, alphabet, X))
+    margs0 = [a.clone() if isinstance(a, torch.Tensor) else a for a in margs]
+    lens = [len(r[0]) for r in rowss]
+    total = sum(lens) + sum(sp)
     s0 = (L // 2 - total // 2) if start is None else start
     # expected: sequential substitution; every span must lie inside, spacings non-negative
-    pos, ok, p = [], all(0 <= sp for sp in spacing), s0
-    for i, m in enumerate(motifs):
+    pos, ok, p = [], valid and all(0 <= x for x in sp), s0
+    for i in range(nm):
         pos.append(p)
-        if p < 0 or p + len(m) > L:
+        if p < 0 or p + lens[i] > L:
             ok = False
-        p += len(m) + (spacing[i] if i < nm - 1 else 0)
+        p += lens[i] + (sp[i] if i < nm - 1 else 0)
+    kw = {}
+    if case.get('pass_alphabet', True):
+        kw['alphabet'] = list(alphabet)
+    if not (start is None and case.get('omit_start')):
+        kw['start'] = _idx(start, case.get('index_kind', 'int'))
     try:
-        Y = ersatz.multisubstitute(X, motifs, spacing, start=start, alphabet=alphabet)
-        got = dec(Y, alphabet)
-        if not ok:
-            out.append('multisubstitute returned although a span is not inside the sequence / a spacing is negative')
-        else:
-            exp = []
-            for s in seqs:
-                for m, q in zip(motifs, pos):
-                    s = _str_sub(s, m, q)
-                exp.append(s)
-            if got != exp or Y.shape != X.shape:
-                out.append('multisubstitute != sequential substitution: got %s expected %s' % (got, exp))
+        Y = ersatz.multisubstitute(X, margs, spacing, **kw)
     except Exception as e:
         # the pinned guard also refuses spacing >= L; that never returns a wrong result
-        if ok and all(sp < L for sp in spacing):
-            out.append('multisubstitute raised %s on a valid request' % type(e).__name__)
-    if not torch.equal(X, X0):
-        out.append('multisubstitute modified its input')
+        if ok and all(x < L for x in sp):
+            out.append('multisubstitute raised %s (%s) on a valid request' % (type(e).__name__, str(e)[:60]))
+    else:
+        if not ok:
+            out.append('multisubstitute returned although a span is not inside the sequence / a spacing is negative / a motif is not a one-hot motif for this batch')
+        else:
+            exp = []
+            for b, s in enumerate(seqs):
+                for rows, q in zip(rowss, pos):
+                    s = _str_sub(s, rows[b] if len(rows) > 1 else rows[0], q)
+                exp.append(s)
+            got = strict_dec(Y, alphabet)
+            if got is None or tuple(Y.shape) != tuple(X.shape):
+                out.append('multisubstitute output is not a valid one-hot encoding of the input shape')
+            elif got != exp:
+                out.append('multisubstitute != sequential substitution: got %s expected %s' % (got[:3], exp[:3]))
+    _frame(out, 'multisubstitute', base, base0, margs, margs0)
     return out
+
+
+def build_probs(spec, A):
+    """-> kwargs for randomize.  legacy cases (no spec): shared uniform float64 tensor"""
+    if spec is None:
+        return {'probs': torch.full((1, A), 1.0 / A, dtype=torch.float64)}
+    form, rows = spec['form'], spec.get('rows')
+    if form == 'default':
+        return {}
+    if form == 'list':
+        return {'probs': [list(r) for r in rows]}
+    if form == 'numpy':
+        return {'probs': numpy.array(rows, dtype=numpy.float64)}
+    return {'probs': torch.tensor(rows, dtype=torch.float32 if form == 'tensor32' else torch.float64)}
 
 
 def check_randomize(case):
     out = []
-    alphabet, seqs, st, en, n, seed = case['alphabet'], case['seqs'], case['start'], case['end'], case['n'], case['seed']
+    alphabet, seqs, st, en, n, seed = list(case['alphabet']), case['seqs'], case['start'], case['end'], case['n'], case['seed']
     A, L, B = len(alphabet), len(seqs[0]), len(seqs)
-    X = torch.cat([ohe(s, alphabet) for s in seqs])
-    X0 = X.clone()
+    X, base = build_X(seqs, alphabet, case.get('dtype', 'int8'), case.get('layout', 'contig'))
+    base0 = base.clone()
     inside = 0 <= st < en <= L
+    kw = build_probs(case.get('probs'), A)
+    rs = case.get('rs', 'int')
+    kw['random_state'] = seed if rs == 'int' else numpy.random.RandomState(seed) if rs == 'obj' else None
+    pr0 = kw['probs'].clone() if isinstance(kw.get('probs'), torch.Tensor) else None
+    ik = case.get('index_kind', 'int')
     try:
-        probs = torch.full((1, A), 1.0 / A, dtype=torch.float64)
-        R = ersatz.randomize(X, st, en, probs=probs, n=n, random_state=seed)
-        if not inside:
-            out.append('randomize returned for a span not inside the sequence')
-        elif tuple(R.shape) != (B, n, A, L):
-            out.append('randomize shape %s' % (tuple(R.shape),))
-        else:
-            for b in range(B):
-                for j in range(n):
-                    row = R[b, j]
-                    if not torch.equal(row[:, :st], X[b][:, :st]) or not torch.equal(row[:, en:], X[b][:, en:]):
-                        out.append('randomize altered a position outside [start, end)')
-                    if not bool(((row.sum(dim=0) == 1) & ((row == 0) | (row == 1)).all(dim=0)).all()):
-                        out.append('randomize output is not one-hot')
+        R = ersatz.randomize(X, _idx(st, ik), _idx(en, ik), n=n, **kw)
     except Exception as e:
         # observation (DESIGN 2.3): the pinned guard refuses end == L; an error is never a wrong result
         if inside and en < L:
             out.append('randomize raised %s (%s) on a valid span' % (type(e).__name__, str(e)[:60]))
-    if not torch.equal(X, X0):
-        out.append('randomize modified its input')
+    else:
+        if not inside:
+            out.append('randomize returned for a span not inside the sequence')
+        elif not isinstance(R, torch.Tensor) or tuple(R.shape) != (B, n, A, L):
+            out.append('randomize shape %s' % (tuple(getattr(R, 'shape', ())),))
+        else:
+            R64, X64 = R.to(torch.float64), X.to(torch.float64)
+            for b in range(B):
+                for j in range(n):
+                    row = R64[b, j]
+                    if not torch.equal(row[:, :st], X64[b][:, :st]) or not torch.equal(row[:, en:], X64[b][:, en:]):
+                        out.append('randomize altered a position outside [start, end)')
+                    if not bool(((row.sum(dim=0) == 1) & ((row == 0) | (row == 1)).all(dim=0)).all()):
+                        out.append('randomize output is not one-hot')
+    _frame(out, 'randomize', base, base0, [], [])
+    if pr0 is not None and not torch.equal(kw['probs'], pr0):
+        out.append('randomize modified the caller-owned probs tensor')
     return out
 
 
+# ------------------------------------------------------------------ case generators (seeded)
+def _word(rng, alphabet, n):
+    return ''.join(rng.choice(alphabet) for _ in range(n))
+
+
+def _gen_common(rng, maxB=5, lens=None):
+    A = rng.randint(2, 6)
+    alphabet = list(LETTERS[:A])
+    if rng.random() < 0.35:
+        rng.shuffle(alphabet)          # the index order of the alphabet is the caller's choice
+    B = rng.randint(1, maxB)
+    L = rng.choice(lens or [1, 2, 3, rng.randint(4, 12), rng.randint(4, 12), rng.randint(13, 40), rng.randint(41, 150)])
+    layout, dtype = rng.choice(LAYOUTS), rng.choice(DTYPES)
+    seqs = [_word(rng, alphabet, L) for _ in range(B)]
+    if layout == 'expanded':
+        seqs = [seqs[0]] * B
+    return {'alphabet': alphabet, 'seqs': seqs, 'dtype': dtype, 'layout': layout, 'index_kind': rng.choice(['int', 'int', 'numpy'])}
+
+
+def _gen_motif(rng, alphabet, B, L, n, xdtype, bad=True):
+    A, r = len(alphabet), rng.random()
+    mdt = rng.choice(['int8', xdtype, 'float32'])
+    if not bad:
+        r *= 0.70
+    if r < 0.25:
+        return {'form': 'str', 's': _word(rng, alphabet, n)}
+    if r < 0.40:
+        return {'form': 'tensor', 'rows': [_word(rng, alphabet, n)], 'dtype': mdt}
+    if r < 0.62:
+        return {'form': 'tensor', 'rows': [_word(rng, alphabet, n) for _ in range(B)], 'dtype': mdt}
+    if r < 0.70:
+        if n <= L:
+            return {'form': 'xview', 'offset': rng.randint(0, L - n), 'n': n}
+        return {'form': 'str', 's': _word(rng, alphabet, n)}
+    if r < 0.79:      # batch neither 1 nor B: must be rejected, not broadcast (also when it divides B)
+        k = rng.choice([x for x in (2, 3, 4, 6, 8, 10) if x != B])
+        return {'form': 'tensor', 'rows': [_word(rng, alphabet, n) for _ in range(k)], 'dtype': mdt}
+    if r < 0.85:      # other alphabet size
+        A2 = A + 1 if (A == 2 or rng.random() < 0.5) else A - 1
+        al2 = list(LETTERS[:A2])
+        return {'form': 'tensor', 'rows': [_word(rng, al2, n)], 'dtype': mdt, 'alphabet': al2}
+    q = rng.randrange(n)
+    w = _word(rng, alphabet, n)
+    if r < 0.91:      # unknown character: no one-hot column exists for it
+        return {'form': 'str', 's': w[:q] + 'N' + w[q + 1:]}
+    if r < 0.94:
+        return {'form': 'str', 's': w[:q] + 'Z' + w[q + 1:]}
+    if r < 0.98:
+        return {'form': 'tensor', 'rows': [w[:q] + 'N' + w[q + 1:]], 'dtype': mdt}
+    return {'form': 'str', 's': ''}
+
+
+def _gen_edit(rng):
+    c = _gen_common(rng)
+    c['kind'] = 'edit'
+    alphabet, B, L = c['alphabet'], len(c['seqs']), len(c['seqs'][0])
+    fn = c['fn'] = rng.choice(['substitute', 'substitute', 'insert', 'insert', 'delete'])
+    if fn == 'delete':
+        c['start'] = rng.choice([-1, 0, 0, 1, L - 1, L, rng.randint(-3, L + 3), rng.randint(0, L)])
+        c['end'] = rng.choice([0, 1, L - 1, L, L, L + 1, rng.randint(-3, L + 3), rng.randint(0, L), c['start'] + 1])
+        return c
+    n = rng.choice([1, 1, 2, 3, rng.randint(1, 8), L, L + 1])
+    c['motif'] = m = _gen_motif(rng, alphabet, B, L, n, c['dtype'])
+    n = len(motif_info(m, alphabet, c['seqs'])[0][0])
+    c['start'] = rng.choice([None, None, rng.randint(-3, L + 3), 0, L - n, L - n + 1, L, -1, rng.randint(0, max(0, L - n))])
+    c['omit_start'] = rng.random() < 0.5
+    c['pass_alphabet'] = not (alphabet == list('ACGT') and rng.random() < 0.6)
+    return c
+
+
+def _gen_multisub(rng):
+    c = _gen_common(rng, maxB=4, lens=[rng.randint(3, 14), rng.randint(3, 14), rng.randint(15, 60)])
+    c['kind'] = 'multisub'
+    alphabet, B, L = c['alphabet'], len(c['seqs']), len(c['seqs'][0])
+    nm = rng.choice([1, 1, 2, 2, 3, 3, 4, 5])
+    bad = rng.random() < 0.15
+    c['motifs'] = []
+    for i in range(nm):
+        m = _gen_motif(rng, alphabet, B, L, rng.randint(1, 3), c['dtype'], bad=bad and i == nm - 1)
+        if m['form'] == 'str':
+            m = m['s'] or _word(rng, alphabet, 1)     # plain strings; the empty motif is not generated here
+        c['motifs'].append(m)
+    if rng.random() < 0.4:
+        c['spacing'] = rng.choice([0, 0, 1, 2, 3, -1]) if nm > 1 else rng.randint(0, 3)
+    else:
+        c['spacing'] = [rng.choice([0, 0, 1, 2, 3, 4, -1]) for _ in range(nm - 1)]
+    c['start'] = rng.choice([None, None, 0, rng.randint(-2, L + 1), rng.randint(0, L // 2)])
+    c['omit_start'] = rng.random() < 0.5
+    c['pass_alphabet'] = not (alphabet == list('ACGT') and rng.random() < 0.6)
+    return c
+
+
+def _dyadic(rng, A):
+    row = [2.0 ** -(i + 1) for i in range(A - 1)]
+    row.append(2.0 ** -(A - 1))
+    rng.shuffle(row)
+    return row
+
+
+def _gen_randomize(rng, k):
+    c = _gen_common(rng, maxB=5, lens=[2, 3, rng.randint(4, 14), rng.randint(4, 14), rng.randint(15, 60)])
+    c['kind'] = 'randomize'
+    A, B, L = len(c['alphabet']), len(c['seqs']), len(c['seqs'][0])
+    c['start'] = rng.choice([0, 0, 1, -1, -2, rng.randint(-3, L + 3), rng.randint(0, L - 1), rng.randint(0, L - 1)])
+    c['end'] = rng.choice([L - 1, L - 1, L, L + 1, -1, -2, rng.randint(-3, L + 3), rng.randint(1, L), c['start'] + 1, c['start'] + 1])
+    c['n'] = rng.choice([1, 1, 2, 3, 5])
+    c['seed'] = k
+    c['rs'] = rng.choice(['int', 'int', 'obj', 'none'])
+    form = rng.choice(['list', 'numpy', 'tensor32', 'tensor64'] + (['default', 'default'] if A == 4 else []))
+    rows = []
+    for _ in range(1 if rng.random() < 0.5 else B):
+        r = rng.random()
+        if r < 0.3 and (A in (2, 4) or form in ('numpy', 'tensor64')):
+            rows.append([1.0 / A] * A)      # exact in float32 only for A = 2, 4
+        elif r < 0.6:
+            j = rng.randrange(A)
+            rows.append([1.0 if i == j else 0.0 for i in range(A)])
+        else:
+            rows.append(_dyadic(rng, A))
+    c['probs'] = {'form': form, 'rows': rows}
+    return c
+
+
+# ------------------------------------------------------------------ sections
+def _variants_grid(rep):
+    """every dtype x memory layout x primitive on one fixed batch, boundary positions"""
+    alphabet = list('ACGT')
+    L, n = 6, 2
+    for dtype in DTYPES:
+        for layout in LAYOUTS:
+            seqs = ['ACGTAC', 'TTGACA', 'GGGCAT'] if layout != 'expanded' else ['ACGTAC'] * 3
+            base = {'kind': 'edit', 'alphabet': alphabet, 'seqs': seqs, 'dtype': dtype, 'layout': layout}
+            motifs = ({'form': 'str', 's': 'GT'}, {'form': 'tensor', 'rows': ['CA'], 'dtype': 'int8'},
+                      {'form': 'tensor', 'rows': ['CA', 'TG', 'AA'], 'dtype': dtype})
+            for fn in ('substitute', 'insert'):
+                for mi, m in enumerate(motifs):
+                    for start in (-1, 0, 2, L - n, L - n + 1, L, L + 1, None):
+                        case = dict(base, fn=fn, motif=m, start=start, pass_alphabet=(mi != 0))
+                        for what in check_edit(case):
+                            rep.violation(what, case)
+                        rep.case(('vg', fn, dtype, layout, mi, start), sample=case if (dtype, layout, mi, start) == ('float32', 'view', 2, 2) else None,
+                                 section='variants:' + fn)
+            for st, en in ((-1, 2), (0, 1), (0, L), (2, 5), (3, 3), (4, 2), (4, L), (4, L + 1)):
+                case = dict(base, fn='delete', start=st, end=en)
+                for what in check_edit(case):
+                    rep.violation(what, case)
+                rep.case(('vg', 'delete', dtype, layout, st, en), section='variants:delete')
+            case = {'kind': 'multisub', 'alphabet': alphabet, 'seqs': seqs, 'dtype': dtype, 'layout': layout,
+                    'motifs': ['G', motifs[1], motifs[2]], 'spacing': 0, 'start': 0}
+            for sp in (0, 1, 2, [0, 1], [1, 0]):
+                for start in (0, 1, None):
+                    c2 = dict(case, spacing=sp, start=start)
+                    for what in check_multisub(c2):
+                        rep.violation(what, c2)
+                    rep.case(('vg', 'ms', dtype, layout, repr(sp), start), section='variants:multisubstitute')
+            for st, en in ((0, 1), (0, L - 1), (2, 4), (4, L), (-2, 3), (2, -1), (3, L + 1)):
+                c2 = {'kind': 'randomize', 'alphabet': alphabet, 'seqs': seqs, 'dtype': dtype, 'layout': layout, 'start': st, 'end': en,
+                      'n': 2, 'seed': 7, 'probs': {'form': 'default'}}
+                for what in check_randomize(c2):
+                    rep.violation(what, c2)
+                rep.case(('vg', 'rz', dtype, layout, st, en), section='variants:randomize')
+    rep.mark_exhaustive('dtype x layout grid (8 dtypes x 4 memory layouts x 5 primitives, boundary positions, one fixed batch)')
+
+
+def _small_multisub(rep, thorough):
+    """exhaustive small scope for multisubstitute: every L <= maxL, 1-3 motifs of length 1-2, every
+    spacing vector over [-1, smax], every start in [-3, L+3] and None; the motif form cycles through
+    str / shared tensor / per-example tensor and the spacing is passed as an int when constant"""
+    alphabet = list('ACG')
+    maxL = 5 if thorough else 4
+    k = 0
+    for L in range(1, maxL + 1):
+        seqs = [('ACGCA' * 2)[:L], ('GGACA' * 2)[:L]]
+        for nm in (1, 2, 3):
+            smax = 2 if (nm < 3 or thorough) else 1
+            for lens in itertools.product((1, 2), repeat=nm):
+                for sp in itertools.product(range(-1, smax + 1), repeat=nm - 1):
+                    for start in list(range(-3, L + 4)) + [None]:
+                        if rep.out_of_time():
+                            rep.note('time budget reached inside the small multisubstitute scope')
+                            return
+                        k += 1
+                        motifs = []
+                        for i, n in enumerate(lens):
+                            w = ('CA', 'GC', 'AG')[i][:n]
+                            form = (k + i) % 3
+                            motifs.append(w if form == 0 else {'form': 'tensor', 'rows': [w] if form == 1 else [w, w[::-1] if n > 1 else 'G'], 'dtype': 'int8'})
+                        spacing = list(sp)
+                        if nm == 1:
+                            spacing = [] if k % 2 else 0
+                        elif len(set(sp)) == 1 and k % 2:
+                            spacing = sp[0]
+                        case = {'kind': 'multisub', 'alphabet': alphabet, 'seqs': seqs, 'motifs': motifs, 'spacing': spacing, 'start': start,
+                                'omit_start': bool(k % 2)}
+                        for what in check_multisub(case):
+                            rep.violation(what, case)
+                        rep.case(('sms', L, lens, sp, start), sample=case if k == 40 else None, section='small:multisubstitute')
+    rep.mark_exhaustive('multisubstitute: L <= %d x 1-3 motifs of length 1-2 x spacings in [-1, 2] (3 motifs: [-1, %d]) x start in [-3, L+3] + None' % (maxL, 2 if thorough else 1))
+
+
+def _small_randomize(rep, thorough):
+    """exhaustive small scope for randomize: every L <= maxL, every (start, end) in [-3, L+3]^2"""
+    maxL = 5 if thorough else 4
+    for A in ((2, 3, 4, 6) if thorough else (2, 4)):
+        alphabet = list(LETTERS[:A])
+        for L in range(1, maxL + 1):
+            seqs = [(''.join(alphabet) * 3)[:L], (''.join(reversed(alphabet)) * 3)[1:L + 1]]
+            for st in range(-3, L + 4):
+                for en in range(-3, L + 4):
+                    if rep.out_of_time():
+                        rep.note('time budget reached inside the small randomize scope')
+                        return
+                    case = {'kind': 'randomize', 'alphabet': alphabet, 'seqs': seqs, 'start': st, 'end': en, 'n': 2, 'seed': 16 * (st + 3) + (en + 3),
+                            'rs': ('int', 'obj', 'none')[(st + en) % 3]}
+                    for what in check_randomize(case):
+                        rep.violation(what, case)
+                    rep.case(('srz', A, L, st, en), nontrivial=0 <= st < en <= L, section='small:randomize')
+    rep.mark_exhaustive('randomize: alphabets %s x L <= %d x every (start, end) in [-3, L+3]^2' % ('2,3,4,6' if thorough else '2,4', maxL))
+
+
+def _variants_random(rep, rng, thorough):
+    n_edit, n_ms, n_rz = (12000, 5000, 4000) if thorough else (1200, 500, 400)
+    for k in range(n_edit):
+        if rep.out_of_time():
+            return
+        case = _gen_edit(rng)
+        for what in check_edit(case):
+            rep.violation(what, case)
+        rep.case(('ve', k), sample=case if k < 1 else None, section='variants:' + case['fn'])
+    for k in range(n_ms):
+        if rep.out_of_time():
+            return
+        case = _gen_multisub(rng)
+        for what in check_multisub(case):
+            rep.violation(what, case)
+        rep.case(('vms', k), section='variants:multisubstitute')
+    for k in range(n_rz):
+        if rep.out_of_time():
+            return
+        case = _gen_randomize(rng, k)
+        for what in check_randomize(case):
+            rep.violation(what, case)
+        rep.case(('vrz', k), section='variants:randomize')
+
+
 def _multisub_and_randomize(rep, rng, thorough):
-    """independent string-level oracle"""
+    """independent string-level oracle, plain inputs (int8, contiguous, string motifs, list spacing)"""
     n_cases = 1500 if thorough else 250
     for k in range(n_cases):
         if rep.out_of_time():
@@ -207,33 +674,48 @@ def _multisub_and_randomize(rep, rng, thorough):
         for what in check_multisub(case):
             rep.violation(what, case)
         rep.case(('ms', k), sample=case if k < 2 else None, section='multisubstitute')
-        st, en = rng.randint(-1, L), rng.randint(-1, L + 1)
+        st, en = rng.randint(-3, L + 1), rng.randint(-3, L + 2)
         case = {'kind': 'randomize', 'alphabet': alphabet, 'seqs': seqs, 'start': st, 'end': en, 'n': rng.randint(1, 3), 'seed': k}
         for what in check_randomize(case):
             rep.violation(what, case)
         rep.case(('rz', k), section='randomize')
 
 
+def _validate_expect(X):
+    """assumed contract of _validate_input(ohe=True): returns iff every entry is 0 or 1, every
+    column along dim 1 sums to exactly 1, and there are at least two channels (both values present)"""
+    X64 = X.to(torch.float64)
+    return bool(((X64 == 0) | (X64 == 1)).all()) and bool((X64.sum(dim=1) == 1).all()) and X.shape[1] >= 2
+
+
+def _validate_got(X):
+    try:
+        _validate_input(X, 'X', ohe=True)
+        return True
+    except ValueError:
+        return False
+
+
 def _validate_conformance(rep):
     """assumed contract of _validate_input(ohe=True): returns iff one-hot along dim 1, no all-zero
-    column, both values present. Exhaustive over tensors with entries in {0,1,2} of shape <= (1,3,2)
-    and (2,2,1)."""
+    column, both values present. Exhaustive over int8 tensors with entries in {0,1,2} of shape <= (1,3,2)
+    and (2,2,1); float32 tensors with entries in {0, 1, 0.5, -1}, bool and int64 tensors on three shapes."""
     n = 0
-    for shape in ((1, 2, 1), (1, 2, 2), (1, 3, 2), (2, 2, 1), (1, 1, 2)):
-        numel = shape[0] * shape[1] * shape[2]
-        for vals in itertools.product((0, 1, 2), repeat=numel):
-            X = torch.tensor(vals, dtype=torch.int8).reshape(shape)
-            col_ok = bool((((X == 0) | (X == 1)).all()) and (X.sum(dim=1) == 1).all())
-            expect_ok = col_ok and shape[1] >= 2
-            try:
-                _validate_input(X, 'X', ohe=True)
-                got_ok = True
-            except ValueError:
-                got_ok = False
-            n += 1
-            if got_ok != expect_ok:
-                rep.violation('assumed contract of _validate_input disagrees with the real function', {'kind': 'validate', 'X': X.tolist()})
-            rep.case(('vi', shape, vals), nontrivial=col_ok, section='_validate_input-conformance')
+    plans = [('int8', (0, 1, 2), ((1, 2, 1), (1, 2, 2), (1, 3, 2), (2, 2, 1), (1, 1, 2))),
+             ('float32', (0, 1, 0.5, -1), ((1, 2, 2), (1, 3, 1), (2, 2, 1))),
+             ('int64', (0, 1, -1), ((1, 2, 2), (1, 3, 1))),
+             ('bool', (0, 1), ((1, 2, 2), (1, 3, 2), (2, 2, 1), (1, 1, 2)))]
+    for dtype, values, shapes in plans:
+        for shape in shapes:
+            numel = shape[0] * shape[1] * shape[2]
+            for vals in itertools.product(values, repeat=numel):
+                X = torch.tensor(vals, dtype=torch.float64).to(getattr(torch, dtype)).reshape(shape)
+                expect_ok = _validate_expect(X)
+                n += 1
+                if _validate_got(X) != expect_ok:
+                    rep.violation('assumed contract of _validate_input disagrees with the real function',
+                                  {'kind': 'validate', 'X': X.to(torch.float64).tolist(), 'dtype': dtype})
+                rep.case(('vi', dtype, shape, vals), nontrivial=expect_ok, section='_validate_input-conformance')
     rep.mark_exhaustive('_validate_input(ohe=True) on %d small tensors' % n)
 
 
@@ -245,17 +727,13 @@ def replay(case):
         fn = getattr(ersatz, case['function'].split('.')[-1])
         _, viol = check_concrete(c, case['cfg'], fn, from_json(case['args']), from_json(case['kwargs']))
         return ['%s: %s' % (v['label'], v['detail']) for v in viol]
+    if k == 'edit':
+        return check_edit(case)
     if k == 'multisub':
         return check_multisub(case)
     if k == 'randomize':
         return check_randomize(case)
     if k == 'validate':
-        X = torch.tensor(case['X'], dtype=torch.int8)
-        col_ok = bool((((X == 0) | (X == 1)).all()) and (X.sum(dim=1) == 1).all()) and X.shape[1] >= 2
-        try:
-            _validate_input(X, 'X', ohe=True)
-            got = True
-        except ValueError:
-            got = False
-        return [] if got == col_ok else ['assumed contract of _validate_input disagrees with the real function']
+        X = torch.tensor(case['X'], dtype=torch.float64).to(getattr(torch, case.get('dtype', 'int8')))
+        return [] if _validate_got(X) == _validate_expect(X) else ['assumed contract of _validate_input disagrees with the real function']
     return ['unknown replay kind']
